@@ -20,7 +20,8 @@ def _schema(version):
         from hed import load_schema_version
         from hed.models.definition_dict import DefinitionDict
         s = load_schema_version(version)
-        _G[version] = (s, DefinitionDict(hedgen.DEFS, s), hedgen.Vocab(version))
+        vocab = hedgen.Vocab(version)
+        _G[version] = (s, DefinitionDict(vocab.defs, s), vocab)
     return _G[version]
 
 
@@ -129,10 +130,23 @@ def run(ctx):
             cases.append(j)
             nn += 1
     ctx.note("neighbourhood_trees", nn)
+    rc = ctx.tlc("MC_HedRules", "MC_HedRules_conf.cfg", workers=1, label="one step from sibling groups holding the same tags in different "
+                 "nesting (a copy must be found beside a confusable sibling)", timeout=3000)
+    nc = 0
+    for j in rc.json_lines:
+        k = json.dumps([j["par"], j["kind"]])
+        if k not in seen:
+            seen.add(k)
+            if "TAG_EXPRESSION_REPEATED" in j["codes"] and "TAG_EMPTY" not in j["codes"]:
+                j["dup"] = True
+            j["always"] = True
+            cases.append(j)
+            nc += 1
+    ctx.note("confusable_sibling_trees", nc)
     versions = [v for v, _ in facts.bundled()]
     jobs = []
     for vi, v in enumerate(versions):
-        sel = [(ci, c) for ci, c in enumerate(cases) if (not quick) or (ci + vi + ctx.seed) % 4 == 0]
+        sel = [(ci, c) for ci, c in enumerate(cases) if (not quick) or c.get("always") or (ci + vi + ctx.seed) % 4 == 0]
         for b in range(0, len(sel), 400):
             jobs.append((v, sel[b:b + 400], ctx.seed * 53 + vi * 5))
     with mp.get_context("fork").Pool(14) as pool:
